@@ -22,9 +22,9 @@ def failing_prelude(ctx):
         parse(ctx, bad)
 
 
-def h_render(ctx, shape, taglen, datalen, maxgap, cdata):
+def h_render(ctx, shape, taglen, datalen, maxgap, cdata, tagprefix=""):
     failing_prelude(ctx)
-    spec = sym_tree(ctx, shape, taglen, datalen)
+    spec = sym_tree(ctx, shape, taglen, datalen, tagprefix=tagprefix)
     text = render(ctx, spec, maxgap, cdata)
     ctx.observe("text", text)
     out, err = parse(ctx, text)
@@ -40,7 +40,7 @@ HARNESSES = dict(render=h_render)
 
 META = dict(
     bounds=dict(trees="all ordered tree skeletons with <= 3 (quick) / 4 (thorough) nodes; childless nodes are data leaves or empty aggregates (symbolic)",
-                tags="1-2 symbolic characters over A-Z 0-9 . _ (whether two nodes share a name is decided by the solver)",
+                tags="1-2 symbolic characters over A-Z 0-9 . _ (whether two nodes share a name is decided by the solver); plus names of 32-33 characters (31 fixed + 1-2 symbolic)",
                 data="1-2 (quick) / 1-3 (thorough) symbolic characters over the printable alphabet minus '<', non-blank ends",
                 rendering="per data element: end tag present or not, CDATA-wrapped or not; white space of symbolic length 0..1 (quick) / 0..2 (thorough) over {space, tab, CR, LF} between tokens"),
     models=["re (backtracking matcher over the real TreeBuilder.regex incl. the (?P=tag) back-reference and lazy quantifier)", "str.strip/startswith",
@@ -62,4 +62,8 @@ def instances(tier, seed):
         for cd in (False, True):
             mk(f"render[{sh},cdata={cd}]", dict(shape=sh, taglen=1 if not full else [1, 2], datalen=[1, 2] if not full else [1, 2, 3],
                                                 maxgap=1 if not full else 2, cdata=cd))
+    # long tag names: 31 fixed characters + 1-2 symbolic ones (the notation sets no limit; 32 is where fixed-size buffers end)
+    for sh in (["3b"] if not full else ["2", "3a", "3b", "4d"]):
+        mk(f"render[{sh},tags of 32-33 chars]", dict(shape=sh, taglen=[1, 2], datalen=1, maxgap=0 if not full else 1, cdata=False,
+                                                     tagprefix="ABCDEFGHIJKLMNOPQRSTUVWXYZ01234"))
     return out
